@@ -1,6 +1,5 @@
 //! Component streams on pure functions: `AggState::merge` + `agg_state_to_scalar`,
 //! the bucket functions, `get_i64_at` of a string column.
-use crate::cases::*;
 use crate::oracle::ref_bucket;
 use crate::types::*;
 use snel_db::command::handlers::query::merge::aggregate_stream::AggregateStreamMerger;
@@ -248,6 +247,3 @@ pub fn stream_pi64(a: &Args) {
     }
     s.finish();
 }
-
-#[allow(dead_code)]
-pub fn unused(_: &Case) {}
